@@ -22,11 +22,18 @@ of a KlongInterpreter is {_context, _parse_cache, _compiled_cache, _module} (che
 AST nodes - the carriers of the `_compiled` memo - are reachable only from _parse_cache and from function values in
 the global scope.  `Env.reset` empties the global scope and both caches and checks that the scope stack has its
 creation-time depth and (every 256 cases and at the end of every chunk) that the system scopes still hold the
-identical objects as at creation.  After reset no AST node of an earlier case is reachable.  In addition phase
-`fresh` re-runs a complete sub-product with one brand-new interpreter pair per history and demands outcome-for-outcome
+identical objects as at creation.  After reset no AST node of an earlier case is reachable.  In addition phase X
+re-runs a complete sub-product with one brand-new interpreter pair per history and demands outcome-for-outcome
 equality with the reused pair (a difference is a HarnessError).
+
+The product is too large to be run as one block (2-node expressions x 6 positions x 121 bindings x histories), so it
+is cut into phases, each a COMPLETE product over its stated sets (`build_phases`; sizes and universes are written to
+the evidence).  A history of length n judges all its prefixes, each distinct prefix exactly once.
+
+Reporting.  One root cause fails in thousands of enumerated cases; each failing case is reduced to the smallest
+failing case(s) that explain it (see `minimise`) and those are reported, with a root-cause `group`.  The number of
+failing enumerated cases is in coverage.failing_cases_before_reduction.
 """
-import itertools
 import json
 import time
 import warnings
@@ -221,10 +228,11 @@ SUB4 = (0, 4, 7, 9)             # U4: 4, [1 2 3], [[1 2] [3 4]], "ab"
 SUB_B3 = (0, 3, 4)              # B3: 4, 2.5, [1 2 3]
 SUB_B2 = (0, 4)                 # B2: 4, [1 2 3]
 STYLES = ('kg', 'py')           # a::v evaluated as Klong text  /  klong['a'] = value from Python
-
-
-def kind_of(i):
-    return ('int', 'int0', 'negint', 'real', 'ivec', 'rvec', 'empty', 'matrix', 'nested', 'string', 'dict')[i]
+# Both styles end in KlongInterpreter.__setitem__ (Define calls it), which clears _compiled_cache; what survives a
+# rebinding is the `_compiled` memo on AST nodes below the root.  Note on -3: `a::-3` evaluates Negate(3) and binds a
+# NumPy integer, which compile_expr does NOT admit (only Python int/float and ndarray): the universe therefore has
+# admitted atoms (4, 0, 2.5), a non-admitted atom (-3), admitted arrays (numeric, empty, rank 2, object/nested) and
+# non-admitted values (string, dictionary).
 
 
 # ---------------------------------------------------------------------------------------------
@@ -508,14 +516,6 @@ def snippet(backend, setup, ev, b0, hist, upto):
 
 # ---------------------------------------------------------------------------------------------
 # root-cause labels (assigned by inspection of the failing case; used for triage only, never for the verdict)
-
-def has_node(t, kinds):
-    if isinstance(t, str):
-        return False
-    if t[0] in kinds:
-        return True
-    return any(has_node(c, kinds) for c in (t[2:] if t[0] != 'n' else t[1:]))
-
 
 def _shape(c):
     return ('l', tuple(_shape(e) for e in c[1])) if c[0] == 'l' else ('n',) if c[0] in 'ir' else (c[0],)
